@@ -248,6 +248,11 @@ func c04Run(c *Ctx) {
 	cfg := c04DeclCfg()
 	cfg.ParserOpts = []flags.Options{opts}
 	d := GenDecl(c.Sub("d"), cfg)
+	if c.K%19 == 8 && c.W.Tier != "race" {
+		// totality and typed rejections also hold on a parser that was used before and whose model was edited
+		histCase(c, d, histAllParseKinds, []string{"parse", "help"})
+		return
+	}
 	special := ""
 	if c.K%97 == 5 {
 		// a no-argument option that carries choice tags: a declaration the library accepts
